@@ -61,6 +61,9 @@ fn generate(seed: u64, tier: Tier) -> Scenario {
         small_blocks: r.chance(1, 2),
     };
     let mut sc = gen_history(&mut r, "C05", seed, &hc);
+    if seed % 3 == 0 {
+        crate::scenario::sprinkle_legacy_tails(&mut r, &mut sc);
+    }
     // the band set is drawn at execution time from what exists: store the draw seed
     sc.steps.push(Step::Delete {
         bands: vec![],
